@@ -643,7 +643,11 @@ def register(an):
         if st.prove_le0(r - Lin.const(hi)) and st.prove_le0(Lin.const(lo) - r):
             return ('int', r)
         l, u = st.lb(r), st.ub(r)
-        return ('int', an.fresh(st, ty, lo if l is None else max(l, lo), hi if u is None else min(u, hi), 'sat'))
+        if u is not None and u <= lo:
+            return V_const(lo)
+        if l is not None and l >= hi:
+            return V_const(hi)
+        return ('int', an.fresh(st, ty, lo if l is None else min(max(l, lo), hi), hi if u is None else max(min(u, hi), lo), 'sat'))
 
     @suffix('>::checked_add', '>::checked_sub', '>::checked_mul', '>::checked_div')
     def m_checked(an, t, args, frame, st, c):
@@ -706,9 +710,21 @@ def register(an):
         ty = an.subst_ty(t.dest.ty, frame)
         if ty not in INT_RANGES:
             return NotImplemented
-        lo, hi = an.as_int(args[1], st), an.as_int(args[2], st)
+        x, lo, hi = an.as_int(args[0], st), an.as_int(args[1], st), an.as_int(args[2], st)
         l = st.lb(lo) if lo is not None else None
         h = st.ub(hi) if hi is not None else None
+        if x is not None and lo is not None and hi is not None:
+            if st.prove_cmp('Le', lo, x) and st.prove_cmp('Le', x, hi):
+                return ('int', x)
+            if st.prove_cmp('Le', x, lo):
+                return ('int', lo)
+            if st.prove_cmp('Le', hi, x):
+                return ('int', hi)
+            xl, xu = st.lb(x), st.ub(x)
+            if l is not None and h is not None and l <= h:
+                l2 = l if xl is None else min(max(xl, l), h)
+                h2 = h if xu is None else max(min(xu, h), l)
+                return ('int', an.fresh(st, ty, l2, h2, 'clamp'))
         return ('int', an.fresh(st, ty, l, h, 'clamp'))
 
     @suffix('>::count_ones', '>::count_zeros', '>::leading_zeros', '>::trailing_zeros')
